@@ -311,7 +311,24 @@ func (check typecheck) binaryExpr(n *node) error {
 }
 
 func zeroConst(n *node) bool {
-	return n.typ.untyped && constant.Sign(n.rval.Interface().(constant.Value)) == 0
+	if n.typ.untyped {
+		return constant.Sign(n.rval.Interface().(constant.Value)) == 0
+	}
+	// Typed constant operand.
+	if !n.rval.IsValid() || !isConstType(n.typ) {
+		return false
+	}
+	switch n.rval.Kind() {
+	case reflect.Int, reflect.Int8, reflect.Int16, reflect.Int32, reflect.Int64:
+		return n.rval.Int() == 0
+	case reflect.Uint, reflect.Uint8, reflect.Uint16, reflect.Uint32, reflect.Uint64, reflect.Uintptr:
+		return n.rval.Uint() == 0
+	case reflect.Float32, reflect.Float64:
+		return n.rval.Float() == 0
+	case reflect.Complex64, reflect.Complex128:
+		return n.rval.Complex() == 0
+	}
+	return false
 }
 
 func (check typecheck) index(n *node, max int) error {
